@@ -292,7 +292,12 @@ def check_fuse_then_contract(d):
     if not ok:
         return {"fingerprint": ("ftc", spec_struct(d["a"]), spec_struct(d["b"]), repr(axes)), "nontrivial": False,
                 "failures": [("C06.fuse_then_contract.no_exception", f"reference blockwise: {ref}", feats0)]}
-    ok, r = _call(a.align_axes, b, (axa, axb))
+    # the alignment entry point is called with the axes spelled in every way a caller may spell them: some of them
+    # counted from the end of the operand they belong to (deterministic choice per case)
+    h = stable_hash((repr(axes), a.ndim, b.ndim))
+    spell_a = tuple(x - a.ndim if (h >> i) & 1 else x for i, x in enumerate(axa))
+    spell_b = tuple(x - b.ndim if (h >> (i + 8)) & 1 else x for i, x in enumerate(axb))
+    ok, r = _call(a.align_axes, b, (spell_a, spell_b))
     if not ok:
         fails.append(("C06.fuse_then_contract.no_exception", f"align_axes: {r}", feats0))
     else:
